@@ -226,7 +226,8 @@ Consume ==
        /\ (gap \/ Prop # "C06" \/ PropRel(e, n, o)
            \/ PrintT(<<"PROPFAIL", l, "created-and-verified-bytes-relation", ToJson([event |-> e, design |-> Obs(n)])>>))
        /\ \/ gap                                               \* unjudged
-          \/ MatchObs(e, Obs(n), o, AspectsAt(s, e))
+          \/ MatchObs(e, Obs(n), o, IF Prop = "C06" /\ e.ev = "decode" /\ n.out.kind # "ok" THEN {} ELSE AspectsAt(s, e))
+                   \* (C06 speaks about parsing back what the builders produced: a wire the specification rejects is not its scenario)
           \/ PrintT(<<"MISMATCH", l, e.ev, ToJson([expect |-> Obs(n), event |-> e])>>)
        /\ (gap \/ n.out.kind # "err" \/ o.kind # "err" \/ n.out.err = o.err
            \/ PrintT(<<"DEVIATION", l, n.out.err, o.err>>))
